@@ -535,8 +535,15 @@ class _Inliner:
     @staticmethod
     def _eligible(fn) -> bool:
         a = fn.args
-        if a.vararg or a.kwarg or a.posonlyargs:
+        if a.vararg or a.posonlyargs:
             return False
+        if a.kwarg:
+            # `**options` that is only passed on (`f(.., **options)`) can be bound to the call site's extra keywords
+            nm = a.kwarg.arg
+            uses = [n for n in ast.walk(fn) if isinstance(n, ast.Name) and n.id == nm]
+            fwd = [k.value for c in ast.walk(fn) if isinstance(c, ast.Call) for k in c.keywords if k.arg is None]
+            if not uses or not all(any(u is f_ for f_ in fwd) for u in uses):
+                return False
         for d in fn.decorator_list:
             if not ((isinstance(d, ast.Name) and d.id in ('staticmethod', 'classmethod', 'contextmanager'))
                     or (isinstance(d, ast.Attribute) and d.attr == 'contextmanager')):
@@ -595,10 +602,17 @@ class _Inliner:
             raise NotInlinable('too many arguments')
         for p, a in zip(pos, call.args):
             args[p.arg] = a
+        extra_kw = []
         for k in call.keywords:
             if k.arg not in params:
-                raise NotInlinable('unknown keyword')
+                if g.args.kwarg is None:
+                    raise NotInlinable('unknown keyword')
+                if not _simple_arg(k.value) and not (isinstance(k.value, ast.UnaryOp) and _simple_arg(k.value.operand)):
+                    raise NotInlinable('keyword value passed through **kwargs is not a plain operand')
+                extra_kw.append(k)
+                continue
             args[k.arg] = k.value
+        self._extra_kw = (g.args.kwarg.arg, extra_kw) if g.args.kwarg is not None else None
         defaults = g.args.defaults
         for p, d in zip(g.args.args[len(g.args.args) - len(defaults):], defaults):
             args.setdefault(p.arg, d)
@@ -663,6 +677,20 @@ class _Inliner:
     def _instantiate(self, g, call, recv) -> Tuple[List[ast.stmt], List[ast.stmt]]:
         pre, mapping, rename = self._bind(g, call, recv)
         body = [_Rename(mapping, rename).visit(copy.deepcopy(st)) for st in self._body(g)]
+        ek = getattr(self, '_extra_kw', None)
+        if ek is not None:
+            nm, kws = ek
+            for st in body:
+                for c in ast.walk(st):
+                    if isinstance(c, ast.Call):
+                        new_kw = []
+                        for k in c.keywords:
+                            if k.arg is None and isinstance(k.value, ast.Name) and k.value.id in (nm, rename.get(nm, nm)):
+                                new_kw += [ast.keyword(x.arg, copy.deepcopy(x.value)) for x in kws]
+                            else:
+                                new_kw.append(k)
+                        c.keywords = new_kw
+            self._extra_kw = None
         return pre, body
 
     # ---- statement-level inlining -----------------------------------------------------------------------------------
